@@ -43,6 +43,35 @@ fn unsupported() -> Vec<(&'static str, Vec<u8>)> {
     vec![("tag-section", tag), ("tag-import", tag_import), ("unknown-section-id", unknown), ("component-header", component)]
 }
 
+/// hand-built binaries around the data-count section (wasm-encoder writes the sections exactly as given): compared with the validator
+fn data_count_cases() -> Vec<(&'static str, Vec<u8>)> {
+    use wasm_encoder::*;
+    let base = |dc_before: Option<u32>, dc_twice: bool, dc_after_code: Option<u32>, nseg: usize, use_init: bool| -> Vec<u8> {
+        let mut m = Module::new();
+        let mut t = TypeSection::new(); t.function([], []); m.section(&t);
+        let mut f = FunctionSection::new(); f.function(0); m.section(&f);
+        let mut mem = MemorySection::new(); mem.memory(MemoryType { minimum: 1, maximum: None, memory64: false, shared: false, page_size_log2: None }); m.section(&mem);
+        if let Some(c) = dc_before { m.section(&DataCountSection { count: c }); if dc_twice { m.section(&DataCountSection { count: c }); } }
+        let mut c = CodeSection::new();
+        let mut body = Function::new([]);
+        if use_init { body.instruction(&Instruction::DataDrop(0)); }
+        body.instruction(&Instruction::End);
+        c.function(&body); m.section(&c);
+        if let Some(cn) = dc_after_code { m.section(&DataCountSection { count: cn }); }
+        if nseg > 0 { let mut d = DataSection::new(); for _ in 0..nseg { d.active(0, &ConstExpr::i32_const(0), [1u8]); } m.section(&d); }
+        m.finish()
+    };
+    vec![
+        ("data-count 0, one segment", base(Some(0), false, None, 1, false)),
+        ("data-count 0 twice", base(Some(0), true, None, 0, false)),
+        ("data-count 0 after code", base(None, false, Some(0), 0, false)),
+        ("data-count 0, no segments (valid)", base(Some(0), false, None, 0, false)),
+        ("data-count 1, one segment (valid)", base(Some(1), false, None, 1, true)),
+        ("data-count 2, one segment", base(Some(2), false, None, 1, false)),
+        ("data.drop without data-count", base(None, false, None, 1, true)),
+    ]
+}
+
 fn nested(depth: usize) -> Vec<u8> {
     use wasm_encoder::*;
     let mut m = Module::new();
@@ -98,6 +127,7 @@ pub fn gate(args: &[String]) -> Result<JValue> {
             }
         }
     }
+    for (name, bytes) in data_count_cases() { judge("hand-built", name, &bytes, &mut failures); }
     for (name, bytes) in unsupported() {
         for only_stable in [false, true] {
             checked += 1;
